@@ -13,14 +13,16 @@ import (
 
 // Outcome of one guarded library call.
 type Outcome struct {
-	Kind  string `json:"kind"`            // ok | error | panic | steps | alloc
+	Kind  string `json:"kind"`            // ok | error | panic | steps | alloc | mem
 	Where string `json:"where,omitempty"` // innermost tabula function (failures only)
 	Msg   string `json:"msg,omitempty"`
 	Steps int64  `json:"steps"`
 }
 
 // Bad reports whether the outcome violates "returns a value or an error within bounds".
-func (o Outcome) Bad() bool { return o.Kind == "panic" || o.Kind == "steps" || o.Kind == "alloc" }
+func (o Outcome) Bad() bool {
+	return o.Kind == "panic" || o.Kind == "steps" || o.Kind == "alloc" || o.Kind == "mem"
+}
 
 // Class is the verdict class of a bad outcome: (kind, tabula function).
 func (o Outcome) Class() string { return o.Kind + "@" + o.Where }
